@@ -73,5 +73,57 @@ pub fn run(ctx: &mut Ctx) {
     ctx.out.oracle(f.is_empty(), "ffi-threads-wrong-answer", &f.iter().take(3).cloned().collect::<Vec<_>>().join(" | "));
     ctx.out.stat_n("c19mt.thread_rounds", (rounds * nthreads) as u64);
     for a in shared.iter() { let _ = SFileCloseArchive(h(*a)); }
+    // 3. closing an archive while other threads open files and searches on it: once SFileCloseArchive has returned, NO file or
+    //    search handle opened on that archive may still be usable ("closing an archive invalidates exactly its own handles")
+    eprintln!("C19MT phase close-race");
+    {
+        use std::sync::atomic::{AtomicBool, AtomicUsize, Ordering};
+        let cur = std::sync::Arc::new(AtomicUsize::new(0));
+        let stop = std::sync::Arc::new(AtomicBool::new(false));
+        let opened = std::sync::Arc::new(std::sync::Mutex::new(Vec::<(usize, usize, bool)>::new())); // (archive, handle, is_find)
+        let closed = std::sync::Arc::new(std::sync::Mutex::new(Vec::<usize>::new()));
+        let big = (0..names.len()).filter(|ni| data[0][*ni].is_some()).max_by_key(|ni| data[0][*ni].as_ref().map(|d| d.len()).unwrap_or(0)).unwrap_or(0);
+        let mut ths = vec![];
+        for t in 0..3usize {
+            let (cur, stop, opened, names) = (cur.clone(), stop.clone(), opened.clone(), names.clone());
+            ths.push(std::thread::spawn(move || {
+                let cn = CString::new(names[big].as_str()).unwrap(); let cm = CString::new("*").unwrap();
+                while !stop.load(Ordering::SeqCst) {
+                    let a = cur.load(Ordering::SeqCst); if a == 0 { std::thread::yield_now(); continue; }
+                    if t < 2 {
+                        let mut f: HANDLE = std::ptr::null_mut();
+                        if unsafe { SFileOpenFileEx(h(a), cn.as_ptr(), 0, &mut f) } { opened.lock().unwrap().push((a, f as usize, false)); }
+                    } else {
+                        let mut fd: SFILE_FIND_DATA = unsafe { std::mem::zeroed() };
+                        let g = unsafe { SFileFindFirstFile(h(a), cm.as_ptr(), &mut fd, std::ptr::null()) };
+                        if !g.is_null() { opened.lock().unwrap().push((a, g as usize, true)); }
+                    }
+                }
+            }));
+        }
+        let n = if ctx.thorough { 400 } else { 80 };
+        for r in 0..n {
+            let mut x: HANDLE = std::ptr::null_mut();
+            if !unsafe { SFileOpenArchive(cps[0].as_ptr(), 0, 0, &mut x) } { continue; }
+            cur.store(x as usize, Ordering::SeqCst);
+            for _ in 0..(r % 7) * 200 { std::hint::spin_loop(); }
+            if r % 3 == 0 { std::thread::sleep(std::time::Duration::from_micros(150)); }
+            if SFileCloseArchive(x) { closed.lock().unwrap().push(x as usize); }
+            cur.store(0, Ordering::SeqCst);
+        }
+        stop.store(true, Ordering::SeqCst);
+        for th in ths { let _ = th.join(); }
+        let closed = closed.lock().unwrap(); let opened = opened.lock().unwrap();
+        let mut alive = vec![];
+        for &(a, hd, is_find) in opened.iter() {
+            if !closed.contains(&a) { continue; }
+            if is_find { let mut fd: SFILE_FIND_DATA = unsafe { std::mem::zeroed() }; let _ = unsafe { SFileFindNextFile(h(hd), &mut fd) };
+                if unsafe { SFileFindClose(h(hd)) } { alive.push(format!("search handle {hd:#x} of closed archive {a:#x} still closes as valid")); } }
+            else { let mut hi = 0u32; let sz = unsafe { SFileGetFileSize(h(hd), &mut hi) };
+                if sz != 0xFFFF_FFFF { alive.push(format!("file handle {hd:#x} of closed archive {a:#x} still answers (size {sz})")); let _ = SFileCloseFile(h(hd)); } }
+        }
+        ctx.out.oracle(alive.is_empty(), "ffi-handle-survives-archive-close", &format!("{} of {} handles opened concurrently with SFileCloseArchive outlive it: {}", alive.len(), opened.len(), alive.iter().take(2).cloned().collect::<Vec<_>>().join(" | ")));
+        ctx.out.stat_n("c19mt.close_race_handles", opened.len() as u64);
+    }
     eprintln!("C19MT done");
 }
